@@ -41,6 +41,7 @@ SYMBOLS = {
     "X": (2.0, 48.0, 80.0, 15.0),  # "wildly different" filler for out-of-window rows
     "Z": (10.0, 18.0, 0.0, 0.03),  # reference ET below the 0.1 floor prepare_weather enforces (user-built tables can carry it)
     "T": (36.0, 47.0, 0.0, 10.0),  # tropical night: minimum temperature above every crop's upper temperature
+    "K": (3.0, 24.0, 0.0, 4.0),  # cool night below most base temperatures, warm day (the degree-day methods differ here)
     "F": (-12.0, -2.0, 0.0, 0.5),  # frost: maximum temperature below every crop's base temperature
 }
 WORDS = {
@@ -51,6 +52,7 @@ WORDS = {
     "warm": "WWWWWR",
     "showers": "NRNMNRN",
     "hot": "WWHWWDR",
+    "coolnights": "WKWWKRWKH",
 }
 
 
